@@ -9,7 +9,7 @@ from __future__ import annotations
 from typing import TYPE_CHECKING
 
 from xknx.dpt import DPTArray, DPTBinary
-from xknx.exceptions import CouldNotParseTelegram
+from xknx.exceptions import ConversionError, CouldNotParseTelegram
 
 from .remote_value import GroupAddressesType, RemoteValue, RVCallbackType
 
@@ -49,7 +49,12 @@ class RemoteValueScaling(RemoteValue[int]):
 
     def to_knx(self, value: float) -> DPTArray:
         """Convert value to payload."""
-        knx_value = self._calc_to_knx(self.range_from, self.range_to, value)
+        try:
+            knx_value = self._calc_to_knx(self.range_from, self.range_to, value)
+        except (ValueError, OverflowError) as err:  # nan, inf
+            raise ConversionError(
+                f"Could not serialize {self.__class__.__name__}", value=value
+            ) from err
         return DPTArray(knx_value)
 
     def from_knx(self, payload: DPTArray | DPTBinary) -> int:
